@@ -30,6 +30,10 @@ claim('C08', 'CrossHair symbolic execution of the real parsers; exception class,
       'other exception types escape as counterexamples; watchdog for hangs',
       'Bounded: every token string up to the bound per corpus grammar (Earley, LALR, CYK); token-level positions.',
       'Trusted: refsem.cfg viable-prefix computation; grammars without unproductive rules.', '3/C08')
+claim('C09', 'CrossHair symbolic execution of small_factors (symbolic n) and _generate_repeats (symbolic bounds) with z3 LIA queries deciding the count language of the generated helper rules '
+      'for all k, z3 regex-theory equivalence of terminal-level repetition patterns, and CrossHair-driven end-to-end parses around the bounds',
+      'Bounded in n, mx, m (stated in evidence); unbounded in the repetition count k (LIA) and in the matched string (regex theory).',
+      'Trusted: z3 LIA/regex theory, the compositional interval argument (sum of intervals is an interval; union checked by z3).', '3/C09')
 claim('C06', 'z3 regex-theory queries on sre_parse translations of the real terminal regexps (newline lemma, unbounded over strings) + CrossHair symbolic execution of LineCounter '
       'from an arbitrary integer pre-state + CrossHair over all class-strings through every lexer',
       'The newline lemma is decided for all strings per terminal spelling; the counter step is inductive over unbounded integer state with a bounded token; the end-to-end part is bounded by '
